@@ -38,6 +38,45 @@ func shapeC12(pk map[string]*pkgInfo) []fact {
 			out = append(out, fact{"l4proxyprotocol_handle_wraps_conn", "bool", b2s(strings.Contains(s, "next.Handle(cx.Wrap(")),
 				"Handler.Handle (proxy_protocol) hands cx.Wrap(conn) to the next handler"})
 		}
+		// a local struct type embedding *proxyprotocol.Conn that overrides RemoteAddr AND LocalAddr and
+		// is what Handle hands on: addresses the header does not declare (nil IP after v1 UNKNOWN)
+		// fall back to the real connection's
+		fallsBack := false
+		for _, f := range pp.files {
+			for _, d := range f.Decls {
+				gd, ok := d.(*ast.GenDecl)
+				if !ok {
+					continue
+				}
+				for _, sp := range gd.Specs {
+					ts, ok := sp.(*ast.TypeSpec)
+					if !ok {
+						continue
+					}
+					st, ok := ts.Type.(*ast.StructType)
+					if !ok {
+						continue
+					}
+					embeds := false
+					for _, fl := range st.Fields.List {
+						if len(fl.Names) == 0 && pp.src(fl.Type) == "*proxyprotocol.Conn" {
+							embeds = true
+						}
+					}
+					if !embeds {
+						continue
+					}
+					r, l := pp.findFunc(ts.Name.Name, "RemoteAddr"), pp.findFunc(ts.Name.Name, "LocalAddr")
+					hd := pp.findFunc("Handler", "Handle")
+					if r != nil && l != nil && hd != nil && strings.Contains(pp.src(hd.Body), ts.Name.Name+"{") &&
+						strings.Contains(pp.src(r.Body), "RemoteAddr()") && strings.Contains(pp.src(l.Body), "LocalAddr()") {
+						fallsBack = true
+					}
+				}
+			}
+		}
+		out = append(out, fact{"l4proxyprotocol_undeclared_addr_falls_back", "bool", b2s(fallsBack),
+			"Handler.Handle (proxy_protocol) hands on a wrapper of *proxyprotocol.Conn that overrides RemoteAddr/LocalAddr (an address the header does not declare falls back to the real connection's)"})
 		if fd := pp.findFunc("Handler", "tidyRules"); fd != nil {
 			re := false
 			ast.Inspect(fd.Body, func(n ast.Node) bool {
